@@ -7,6 +7,8 @@ package main
 // along the path; value = parsed text; everything else unset; unparsable => error).
 
 import (
+	"math"
+	"math/big"
 	"context"
 	"fmt"
 	"os"
@@ -450,6 +452,35 @@ func genEnvValue(r *RNG, t reflect.Type) (text string, want string) {
 			return "1.2.3", ""
 		}
 		x := float64(r.Intn(100000)) / 64
+		switch r.Intn(10) {
+		case 0: // the ends of the type's range: the largest finite value is a valid text, not an overflow
+			if t.Bits() == 32 {
+				x = []float64{math.MaxFloat32, -math.MaxFloat32, math.SmallestNonzeroFloat32}[r.Intn(3)]
+			} else {
+				x = []float64{math.MaxFloat64, -math.MaxFloat64, math.SmallestNonzeroFloat64}[r.Intn(3)]
+			}
+		case 1: // any finite bit pattern
+			if t.Bits() == 32 {
+				f := math.Float32frombits(uint32(r.U64()))
+				if !math.IsInf(float64(f), 0) && !math.IsNaN(float64(f)) {
+					x = float64(f)
+				}
+			} else if f := math.Float64frombits(r.U64()); !math.IsInf(f, 0) && !math.IsNaN(f) {
+				x = f
+			}
+		case 2:
+			if t.Bits() == 32 && envNonCanonOK {
+				// a decimal text a hair above the midpoint of two adjacent float32 values: the nearest float32
+				// is the upper one (converting through float64 first rounds to the midpoint and then to even)
+				lo := math.Float32frombits(0x3f800000 | uint32(r.Intn(1<<22))<<1) // in [1,2), even mantissa
+				hi := math.Float32frombits(math.Float32bits(lo) + 1)
+				mid := new(big.Float).SetPrec(200).Add(big.NewFloat(float64(lo)), big.NewFloat(float64(hi)))
+				mid.Quo(mid, big.NewFloat(2))
+				txt := mid.Text('f', 30) + "0000000001"
+				envNonCanon = true
+				return txt, "& s" + hexEnc(strconv.FormatFloat(float64(hi), 'g', -1, 32))
+			}
+		}
 		s := strconv.FormatFloat(x, 'g', -1, t.Bits())
 		return s, "& s" + hexEnc(s)
 	case reflect.Complex128:
@@ -516,16 +547,29 @@ func genEnvValue(r *RNG, t reflect.Type) (text string, want string) {
 			for i := r.Intn(3); i > 0; i-- {
 				m["k"+genWord(r)] = []string{genStr(r), genStr(r)}[:1+r.Intn(2)]
 			}
+			if txt := flaghelper.NewMapStringStringSliceFlag(&m).String(); len(m) > 0 && r.Chance(25) && m["zlast"] == nil {
+				// a pair without a value after pairs with values: the key maps to one empty string
+				m["zlast"] = []string{""}
+				return txt + ",zlast:", tfVal(reflect.ValueOf(m))
+			}
 			return flaghelper.NewMapStringStringSliceFlag(&m).String(), tfVal(reflect.ValueOf(m))
 		case reflect.TypeOf(map[string]string(nil)):
 			m := map[string]string{}
 			for i := r.Intn(4); i > 0; i-- {
 				m["k"+genWord(r)] = genStr(r)
 			}
+			if txt := flaghelper.NewMapStringStringFlag(&m).String(); len(m) > 0 && r.Chance(25) {
+				// a pair without a value ("key" or "key:") after pairs with values: the key maps to ""
+				if _, dup := m["zlast"]; !dup {
+					m["zlast"] = ""
+					return txt + []string{",zlast", ",zlast:"}[r.Intn(2)], tfVal(reflect.ValueOf(m))
+				}
+			}
 			return flaghelper.NewMapStringStringFlag(&m).String(), tfVal(reflect.ValueOf(m))
 		case reflect.TypeOf(map[string]int(nil)):
 			if bad {
-				return "a:1,b:x", ""
+				// (a missing number after a pair that has one is unparsable too: it must not inherit anything)
+				return []string{"a:1,b:x", "a:5,b:", "a:5,b", "b:,a:5"}[r.Intn(4)], ""
 			}
 			m := map[string]int{}
 			var parts []string
@@ -574,6 +618,11 @@ func genEnvValue(r *RNG, t reflect.Type) (text string, want string) {
 }
 
 // tokenStreams runs the real scanners over the text (slice mode and map mode)
+// envNonCanonOK: the caller can cope with float texts that are not the shortest form of their value (the model
+// carries float texts as they are, so such a case is compared with the oracle only); envNonCanon reports that one
+// was generated since the caller last cleared it
+var envNonCanonOK, envNonCanon bool
+
 func tokenStreams(text string) (sl, mp []string) {
 	tl := &tokLog{}
 	parse.SetVerifTokenHook(tl.hook)
@@ -648,6 +697,7 @@ func checkC11(c *Ctx) {
 		nset := 0
 		expectErr := false
 		extBad := false // an unparsable float / duration: strconv and time are external to the model
+		envNonCanonOK, envNonCanon = true, false
 		for _, l := range g.leaves {
 			if !r.Chance(55) {
 				continue
@@ -730,7 +780,11 @@ func checkC11(c *Ctx) {
 		}
 		res.Count("outcome/" + strings.SplitN(impl, " ", 2)[0])
 		res.Count(fmt.Sprintf("vars_set=%d", min(nset, 6)))
-		if extBad {
+		envNonCanonOK = false
+		if envNonCanon {
+			res.Count("float32 text just above a midpoint (oracle only)")
+		}
+		if extBad || envNonCanon {
 			res.OutOfDomain++
 		} else if strings.TrimSpace(impl) != model {
 			cs["request"] = req
